@@ -82,6 +82,8 @@ pub struct LspContext {
     error: Diagnostics,
     codegen: Option<Arc<Mutex<CodegenContext>>>,
     parsing_source: Arc<Mutex<LspParsingSource>>,
+    /// The files diagnostics were last published for (they must be cleared when a file leaves the project)
+    published_files: std::collections::HashSet<String>,
     shutdown_manager: Arc<Mutex<ShutdownManager>>,
     #[cfg(test)]
     responses: Arc<Mutex<Vec<lsp_server::Response>>>,
@@ -165,6 +167,7 @@ impl LspContext {
             error: Diagnostics::default(),
             codegen: None,
             parsing_source: Arc::new(Mutex::new(LspParsingSource::new())),
+            published_files: Default::default(),
             shutdown_manager: Arc::new(Mutex::new(ShutdownManager::new())),
             #[cfg(test)]
             responses: Arc::new(Mutex::new(vec![])),
